@@ -125,7 +125,8 @@ an encoder that masks the operand before its range check lets them through (AVR 
     an encoding the instruction set has for it, and that is only the absolute one (opcode, low byte, 00) - a two-byte
     JMP is no 6502 instruction under either reading.  `<` where a zero-page form exists and `>` are not generated.
 
-ISAs covered: see ISAS.  quick: K = 3, one seed-derived salt, 6502 + W65C02S (+ MELPS740 adjacency), ATMEGA128, 8085 in
+ISAs covered: see ISAS.  quick: K = 3, one seed-derived salt, 6502 + W65C02S (+ MELPS740 adjacency), ATMEGA128,
+16C84 + 16C877, 8085 in
 both Z80-syntax modes, MSP430 sample subset (MOV / ADD.B / CMP[.B] + format II + jumps + emulated); thorough: K = 8, 4 salts, all CPU variants, all
 12 MSP430 format-I operations.  The evidence names the ISAs of the run; nothing outside the list is "passed".
 Measured (VERIF_JOBS=6, machine shared): quick 62 s (23 single-worker TLC runs in a pool of 6: 48 s; replay of
@@ -147,16 +148,43 @@ R3); register symbols: forward references (the manual warns they become plain nu
 symbol name where a NUMBER is expected, lower/mixed-case spellings, the other operands at more than IsaGen's one
 representative value, MSP430 registers a field of the reduced table does not list; undocumented
 opcodes and assembler conveniences (NMOS 6502 JMP ($xxFF) guard, MSP430 0(Rn)->@Rn and constant-generator choice for
-65535 / 255, PIC omitted destination, OPTION/TRIS, BANKSEL, AVR CBR, automatic PCLATH fix-up); MSP430 full
+65535 / 255, PIC omitted destination, OPTION/TRIS, BANKSEL, AVR CBR); MSP430 full
 source x destination cross product (every mode x register appears against a register operand, two-extension-word
-combinations only for MOV and CMP.B); MSP430X, other AVR devices, Z80 undocumented, Z180/Z380; MELPS740's own
+combinations only for MOV and CMP.B); the MSP430X's own instructions, AVR devices other than AT90S2313 / AT90S8515 / ATMEGA16 /
+ATMEGA128 (other cores: 90S1200, tiny, reduced tiny with 16 registers), Z80 undocumented, Z180/Z380; MELPS740's own
 instructions (bit operations, JMP ($zz), BBC/BBS after CLI/SEI).  Adjacency: contexts longer than one
 statement, and pairs of different FORMS of the same two mnemonics, are not enumerated.
+
+Extension "isavar" (checks/ext_isavar.py, last phase of main(); spec modules "IsaPic16P", "IsaMsp430E", "IsaAvrBit"; details and
+bounds in the docstring there) + DEVICE dimension of the tables themselves:
+  PIC16C8x: TLA+ Cpu constants 16C84 16C64 16C873 16C874 16C876 16C877 (spec/IsaPic16.tla: program memory 1 K / 2 K / 2 pages /
+      4 pages; quick: 16C84 + 16C877, thorough: all six) through the whole pipeline (G) (H) (A); CALL / GOTO on the paged
+      devices: page-0 statement to page-0 target in the table, every statement page x target page x device in IsaPic16P
+      (operational prefix rule vs. declarative execution of the emitted words by the table's own decoder; quick 16C873 + 16C877).
+  AVR: + AT90S2313 (classic core, 1 K words, SRAM ..0DFH) and ATMEGA16 (enhanced core, 8 K words, JMP / CALL 0..8191, no ELPM);
+      one statement address of each in the last two words of the flash so that branch targets straddle the end of the device
+      (quick: ATMEGA128 as before; thorough: all four, register symbols too).  BIT symbols: IsaAvrBit.
+  MSP430: RLA / RLC (source = destination) derived from the core table (IsaMsp430E; CPU MSP430 and MSP430X); thorough: the sample
+      subset of the table also under CPU MSP430X.
+  WHY ADDED: a change in code16c8x.c DecodeJump (`(AdrWord & Mask)` -> `(XORVal & Mask)`: a differing page bit is always SET, never
+      cleared) compiled, passed the 201 tests and was NOT reported - the PIC table knew the single-page 16C84 only.  Now:
+      442 violations (16C873: page 1 -> 0; 16C877: every jump that has to clear a page bit), exit 1.
+  Reverting the three repaired defects of the pinned tree in a scratch worktree (each alone; quick tier, phase isavar):
+      cdf60d6 (`rla &0` -> `add #4,&0`): 12 violations (RLA / RLC x "" .B .W, &0, both CPUs: 52A2 0000 instead of 5292 0000 0000);
+      c749bf0 (`rla sym`, sym 0 / 1 bytes behind the first extension word, rejected): 48 violations;
+      ae3ac7b (`sbi b1` with b1 BIT of a PORT symbol rejected): 80 violations (SBI CBI SBIC SBIS x PORT-typed address 0 1 24 30 31
+      x bit x both BIT spellings).
+  Measured (machine loaded with ~30 other jobs, load average > 100): the added quick-tier TLC runs cost 16C877 2 x ~20, isavar
+      4 runs ~25 CPU-seconds; replay of the added ~14,000 statements ~5 s.
 
 Findings (known_findings/C14.json).  "fixed" (diffs applied to /repo, the entries suppress nothing):
   4004 ISZ at words 254/255 of a page checked against page of pc+1 (legal target rejected, unreachable one encoded);
   65SC02 / W65C02S JMP ($xxFF) rejected; 6800 JMP/JSR and MSP430 (every format) emit a truncated instruction next to
   the range error.
+  C14-msp430-rla-symbolic-wrap-8000 / -8001 ("known", proposed_fixes/C14-msp430-rla-symbolic-wrap.diff + .md; must flip to "fixed"
+      when the diff is applied): `rla sym` / `rlc sym` whose source displacement is 8000h / 8001h rejected with 'distance too
+      big' although `add sym,sym` assembles and every address is reachable in symbolic mode (found by IsaMsp430E; match key
+      `srcdst_disp` = 16-bit source displacement of a src = dst emulated form in symbolic mode).
 "known" (reproduced by hand on the unchanged tree, diff + note in proposed_fixes/, ctest 201/201 with all three
 applied, `./check C14` on that copy: no finding left; each entry must flip to "fixed" when its diff is applied):
   C14-6502-forced-zp-promotion   `jmp <$12` -> 4C 12, `lda <$12,y` -> B9 00: DecodeNorm appends the high byte through
@@ -187,6 +215,60 @@ the 201 ctest tests, all were reported as VIOLATION:
   syntax + history dimension (scratch worktree, ctest 201/201): the seeded code85.c change above -> 53 violations,
       exit 1; on the unchanged tree the two Z80-syntax variants and all contexts pass without a single suspect.
 Binding of (V): truncating the recorded units of a JMP or flipping opcode bit 0 of an MVI event makes Isa_Trace reject.
+
+Extension isa8051 (checks/ext_isa8051.py, one call at the end of main(); spec modules Isa8051, Isa8051_Gen, Isa8051_Hist,
+Isa8051X, Isa8051_Trace; details in the docstring of checks/ext_isa8051.py): Intel MCS-51 (8051 / 8052, /repo/code51.c; beyond the
+property's CPU list, checked the same way).  Isa8051.tla states the instruction set twice, from the manufacturer's definition:
+the 111 instructions by operand form (IsaCommon form records) and the opcode map 00..FF by rows (mnemonic + length, A5
+undefined); TLC: every defined opcode starts exactly one form and A5 none, mnemonic / length of that form = the map,
+Decode(Encode(i)) = i at every leaf, HwTarget(bytes) = operand and "accepted iff reachable" for every branch (AJMP / ACALL: 2K
+page of the FOLLOWING instruction; rel: -128..127 from the following instruction), byte.b <-> bit address bijection (20H..2FH
+and SFRs divisible by 8).  Replay: every leaf of the IsaGen graph (with IsaHist context statement) through replay_hist above,
+statement addresses 07FEH 07FDH 0800H 07FFH 1234H (quick, K = 1: ~37,300 statements, 3 TLC runs of 13,200-13,450 states) and
++ 0FFH 0F7FEH 0FF00H, K = 8, 2 salts, + CPU 8052 (thorough: ~383,000 statements); Isa8051X: 3,072 (thorough 12,288) bit
+operands written byte.b (number / SFR / SFRB / BIT symbol) + 402 generic JMP / CALL cases (admissible = reaching options of
+minimal length; 40 cases with two admissible encodings), each behind a context statement; t_mic51 + t_bas52: 10,274 machine
+statements explained by the table.  Cost of the phase: quick 63-88 s wall at load average 80-150 (26 builders on the
+machine; TLC 4 JVMs in parallel 34-68 s there, 7-14 s each when the machine was quiet, replays 2-10 s each); thorough 383 s.
+Findings (known_findings/C14-isa8051.json, 12 entries "known"; proposed_fixes/C14-8051-ajmp-page.diff,
+C14-8051-bit-notation.diff; ctest 201/201 with both, the phase then reports nothing; flip to "fixed" when applied):
+AJMP / ACALL at offsets 7FEH / 7FFH of a 2K page are checked against the page of their own address (`org 7feh / ajmp 800h`
+rejected, `ajmp 0` -> 01 00); `setb 30h.1` -> D2 81 silently, `setb 81h.1` -> D2 82 with a warning only.
+Mutations of code51.c (scratch copies /tmp/g51-m1..3, each builds, ctest 201/201, full `./check C14 --tier quick`, exit 1):
+  m1 DecodeDJNZ (Rn): distance limit 127 -> 128                  40 violations `DJNZ Rn,<pc+130>` -> D8+n 80, all 5 addresses
+  m2 DecodeBitAdr: bit number of byte.b UInt3 -> UInt4            926 violations (`clr 32.8` -> C2 08 ...; Isa8051X only)
+  m3 DecodeJMP: SJMP chosen for distance <= 128                   7 violations (`jmp $+130` -> 80 80; Isa8051X only)
+
+EXTENSION "isa6809" (checks/ext_isa6809.py, last phase of main(); spec/Isa6809.tla, Isa6809_Gen.tla / .cfg, Isa6809_MC.cfg,
+Isa6809_Trace.tla / .cfg; details in the docstring of ext_isa6809.py): the Motorola MC6809 (no 6309), written from the
+programming manual.  Machine instructions (MEncode / MDecode from the byte side / PubLen / Sem) - statements
+(Readings = EVERY encoding the instruction set has for the statement: no offset / 5 / 8 / 16 bit, PCR 8 / 16, direct /
+extended by ASSUME DPR; Choices = Motorola convention) - Expect (units / reject / either = what ISA + manual fix; the
+choice among valid encodings, `<` `>` `<<` and two's-complement spellings are never a verdict, only SPEC-DRIFT).
+TLC: table sanity once (opcode map injective, 221 / 38 / 9 opcodes on pages 1 / 2 / 3, 205 canonical postbytes injective,
+[,R+] [,-R] on no legal postbyte, edges -17/-16/15/16, -129/-128/127/128, short branch -128..127 from the following
+instruction, LBRA 3 / LBcc 4 bytes, PCR bases with $10 / $11 prefix, S-vs-U exclusion, 8/16-bit register mixing); at
+every leaf MDecode(MEncode(m)) = m, published length, same meaning, distinct bytes, choice is a shortest reading.
+quick: 27,390 leaves (4 single-worker TLC runs of 6,176..7,574 states in parallel), thorough: 103,878 leaves (23,778..30,801);
+every leaf is assembled twice: alone and directly behind a context statement of another operand shape (21 shapes);
+(V) tests/t_full09 assembled for CPU 6809: 422 machine statements, all 139 mnemonics, explained by Isa6809_Trace.
+Measured at load average 100..160 (16 cores): quick TLC 28..32 s wall (12..14 CPU-s per run, ~6.5 of them JVM / TLC
+start-up), replay 2 x 5 s, (V) in the background; thorough 105 s.
+Finding (known_findings/C14-isa6809.json, proposed_fixes/C14-6809-indirect-autoinc1.diff / .md): `lda [,x+]` -> A6 90,
+`lda [,-x]` -> A6 92 (all 57 indexed mnemonics, X Y U S) - postbytes the 6809 does not have ($90 = [,W] on the 6309); with
+the diff: ctest 201/201, phase without finding.  SPEC-DRIFT on the unchanged tree (8 summary lines): offset / PCR distance
+127 gets the 16-bit form and `<127,R` is refused (code6809.c MayShort `Arg < 127`).
+Mutations of code6809.c (scratch copies /tmp/g09-m1..4, each builds, ctest 201/201; the phase run on them with the
+same Report, exit 1 each; three further candidates - 5-bit edge 15 -> 16, direct page test against page 0, stale high byte of
+every 16-bit offset - were already killed by the repo's own t_full09 and dropped):
+  m1 DecodeTFR_TFM_EXG: size-mixing test only when the destination is 16 bit   96 violations (`EXG S,A` -> 1E 48 ...)
+  m2 DecodeALU: only the $10 prefix counted into the PCR base (page-3 CMPU / CMPS)   1752 violations (`CMPS n,PCR` off by one)
+  m3 DecodeAdr: high byte of a 16-bit PCR offset only written when non-zero (stale byte of the PREVIOUS statement)
+        873 violations, NONE of them alone: 138 directly behind their context statement (history dimension), 463 behind
+        the statement in front of them in the batch, 272 only inside the batch program
+  m4 DecodeRel: short branch limit 127 -> 128                                   76 violations (`BRA <pc+130>` -> 20 80)
+Binding of (V): truncating an indexed LDA, flipping an opcode bit of LBNE, postbyte $91 -> $90 make Isa6809_Trace reject;
+binding of the model: postbyte of D,R 11 -> 10 makes TLC report RoundTrip violated.
 """
 import os
 
@@ -214,7 +296,7 @@ ISAS = [
                unit_bytes=2, quick=["16C84", "16C877"]),
     # DEVICE dimension (spec/IsaAvr.tla): two cores x two memory sizes (program / data address ranges, JMP / CALL, ELPM)
     isa.IsaCfg("AVR", "IsaAvr_Gen", [("AT90S8515", "AT90S8515"), ("ATMEGA128", "ATMEGA128"), ("AT90S2313", "AT90S2313"),
-                                      ("ATMEGA16", "ATMEGA16")], unit_bytes=2, quick=["ATMEGA128", "AT90S2313"]),
+                                      ("ATMEGA16", "ATMEGA16")], unit_bytes=2, quick=["ATMEGA128"]),
     isa.IsaCfg("Z80", "IsaZ80_Gen", [("Z80", "Z80")]),
     # "MSP430:sample" = MOV / ADD.B / CMP[.B] + format II + jumps + emulated (see IsaMsp430.tla)
     # "MSP430X:sample" = the same subset under CPU MSP430X (variant dimension: the base set is unchanged on the 430X)
